@@ -28,6 +28,8 @@ def _make(desc: dict, dtype=torch.float64):
         v = desc.get(key)
         # a preference vector may legitimately be given in another dtype than the matrices (UPGrad / DualProj accept it)
         vdt = DT[desc["pref_dtype"]] if key == "pref" and desc.get("pref_dtype") else dtype
+        if v is not None and desc.get("_owned") is not None:
+            return desc["_owned"]  # the caller's own tensor object (must never be modified by the aggregator)
         return None if v is None else torch.tensor(v, dtype=vdt)
     if name == "Constant":
         return A.Constant(vec("weights"))
@@ -104,7 +106,7 @@ _SHARED = {}
 
 def shared(desc: dict, dtype=torch.float64):
     """One long-lived instance per configuration (as in a training loop): successive calls see different row counts, shapes, dtypes."""
-    key = (repr(sorted(desc.items(), key=lambda kv: kv[0])), str(dtype))
+    key = (repr(sorted((k, v) for k, v in desc.items() if k != "_owned")), str(dtype))
     if key not in _SHARED:
         _SHARED[key] = make(desc, dtype)
     return _SHARED[key]
